@@ -8,7 +8,7 @@ for id in "$@"; do
   T0=$(date +%s)
   ./check "$id" > "/tmp/mut_$id.log" 2>&1; rc=$?
   T1=$(date +%s)
-  echo "== $id rc=$rc ($((T1-T0))s): $(grep -E '^(VIOLATION|INCONCLUSIVE|KNOWN)' /tmp/mut_$id.log | head -3 | tr '\n' ' ')"
+  echo "== $id rc=$rc ($((T1-T0))s): $(grep -E '^(VIOLATION|INCONCLUSIVE)' /tmp/mut_$id.log | head -2 | tr '\n' ' ') kf=$(grep -c '^KNOWN' /tmp/mut_$id.log)"
 done
 git -C /repo checkout -- .
 git -C /verif checkout -- evidence 2>/dev/null
